@@ -6,6 +6,10 @@ bad=0
 for d in seeded/*/; do
   id=$(basename $d)
   prop=$(python3 -c "import json;print(json.load(open('$d/meta.json'))['breaks_property'])")
+  if [ "$(python3 -c "import json;print(json.load(open('$d/meta.json')).get('outside_statement', False))")" = "True" ]; then
+    echo "$id $prop skipped (the change does not violate the property as stated, see meta.json)"
+    continue
+  fi
   git -C /repo apply /verif/$d/patch.diff || { echo "$id: patch does not apply"; bad=1; continue; }
   out=$(./vmc check $prop --tier quick 2>&1); code=$?
   git -C /repo checkout -- .
